@@ -126,6 +126,10 @@ def cbody_sx(c):
         return f"(nonDelay {q(c[1])})"
     if k == "distance":
         return f"(distance {q(c[1])} {c[2]} {opt(c[3], lambda l: lst(l, pair))} {c[4]})"
+    if k == "interrupted":
+        return f"(interrupted {q(c[1])} {lst(c[2], pair)})"
+    if k == "periodicallyUnavailable":
+        return f"(periodicallyUnavailable {q(c[1])} {lst(c[2], pair)} {c[3]} {c[4]} {c[5]} {opt(c[6])})"
     if k in ("sameWorkers", "distinctWorkers"):
         return f"({k} {c[1]} {c[2]})"
     if k in ("unloadBuffer", "loadBuffer"):
@@ -227,6 +231,14 @@ def make_constraint(real, c, kw):
     if k == "distance":
         extra = {"list_of_time_intervals": [tuple(p) for p in c[3]]} if c[3] is not None else {}
         return ps.ResourceTasksDistance(resource=resource_named(real, c[1]), distance=c[2], mode=c[4], **extra, **kw)
+    if k == "interrupted":
+        return ps.ResourceInterrupted(resource=resource_named(real, c[1]),
+                                      list_of_time_intervals=[tuple(p) for p in c[2]], **kw)
+    if k == "periodicallyUnavailable":
+        extra = {"end": c[6]} if c[6] is not None else {}
+        return ps.ResourcePeriodicallyUnavailable(resource=resource_named(real, c[1]),
+                                                  list_of_time_intervals=[tuple(p) for p in c[2]], period=c[3],
+                                                  start=c[4], offset=c[5], **extra, **kw)
     if k == "sameWorkers":
         s = real.selects()
         return ps.SameWorkers(select_workers_1=s[c[1]], select_workers_2=s[c[2]], **kw)
